@@ -128,7 +128,7 @@ func (t *c20concThread) admits(op *c20Op) bool {
 		return t.own(op.a, "types")
 	case "vsAdd", "vsRemove", "psRemove":
 		return op.a >= t.ng0
-	case "psAdd":
+	case "psAdd", "psAddAllSteps":
 		if op.a < t.ng0 {
 			return false
 		}
@@ -147,7 +147,7 @@ func (t *c20concThread) noteSpent(op *c20Op) {
 	switch op.name {
 	case "numberVal", "tupleType":
 		g = t.h.gos[op.a]
-	case "psAdd":
+	case "psAdd", "psAddAllSteps":
 		g = t.h.gos[op.b]
 	default:
 		return
@@ -208,7 +208,7 @@ func c20concCase(ctx *Ctx) {
 			}
 			t.noteSpent(op)
 			t.ops, t.wires, t.lits, t.expect = append(t.ops, op), append(t.wires, wire), append(t.lits, lit), append(t.expect, s)
-			if c20mutators[op.name] || op.name == "vsAdd" || op.name == "vsRemove" || op.name == "psAdd" || op.name == "psRemove" {
+			if c20mutators[op.name] || op.name == "vsAdd" || op.name == "vsRemove" || op.name == "psAdd" || op.name == "psRemove" || op.name == "psAddAllSteps" {
 				t.nMut++
 			}
 			ctx.Tag("conc:step:" + op.name)
